@@ -18,7 +18,7 @@ Definition BeHonest (content : key -> bytes) (be : fmap) : Prop :=
    file the repository does not or no longer have: stale / foreign) or has a different size
    (truncated, wrong size).  A same-size corruption is outside. *)
 Definition CacheFaulty (content : key -> bytes) (c : cache) : Prop :=
-  forall k d, In (k, d) (files c) -> d = content k \/ length d <> length (content k).
+  forall k d, find k (files c) = Some d -> d = content k \/ length d <> length (content k).
 
 (* admissible operations: honest writers, planted files from the fault list, reads of at
    least one byte (a zero-length read beyond the end of a file succeeds on a cached file
